@@ -10,6 +10,8 @@ case <idx> <b|a> <json|jsonnp|msg> <max> <behaviour,behaviour,…|-> [dead=<Kind
 life <idx> <b|a> <max> <behaviour,…|-> <conn|disc|reconn|health|call,…> [dead=…]
    -> <idx> o <op observation>:<connected> … | h … | rec <n|never>
 mr  … same as bc, through `map_reduce_json`
+opts <idx> <b|a> <zero|dup|dupadd>   -> <idx> rejected|accepted   (what the constructors refuse)
+any line may carry a word `p=…` (parameter styles of the harness); the model ignores it
 bc <idx> <b|a> <max> <name=tag+tag=behaviour,…;…> <tag,tag|->
    -> <idx> addressed <name,…|-> results <name=result,…|->
 ```
@@ -122,7 +124,19 @@ def showLife (x : LifeObs × Bool) : String :=
 def orDash (xs : List String) : String := if xs.isEmpty then "-" else ",".intercalate xs
 
 def step (st : Unit) (ws : List String) : Unit × String :=
-  match ws with
+  -- the word `p=…` holds parameters the model does not have (names, tags and methods as strings,
+  -- timeouts, delay, params, which handle): the prediction is the same for each of their values
+  match ws.filter (fun w => !w.startsWith "p=") with
+  | ["opts", idx, fleet, what] =>
+    if fleet ≠ "b" ∧ fleet ≠ "a" then (st, idx ++ " bad-op") else
+    let enforced := match what with
+      | "zero" => some (if fleet = "a" then Gen.Fleet.asyncMaxAttemptsValidated else Gen.Fleet.maxAttemptsValidated)
+      | "dup" => some (if fleet = "a" then Gen.Fleet.asyncNamesDistinctAtConstruction else Gen.Fleet.namesDistinctAtConstruction)
+      | "dupadd" => some (if fleet = "a" then Gen.Fleet.asyncNamesDistinctAtAdd else Gen.Fleet.namesDistinctAtAdd)
+      | _ => none
+    match enforced with
+    | some b => (st, idx ++ (if b then " rejected" else " accepted"))
+    | none => (st, idx ++ " bad-op")
   | "case" :: idx :: fleet :: variant :: max :: seq :: rest =>
     -- optional 7th word `dead=K,K,…`: the error kinds the harness observed for calls on a dead cached client
     let observed : Option (List IoKind) := match rest with
